@@ -17,6 +17,9 @@ type Canary struct {
 	Dir      string // private directory
 	Cwd      string // Dir/cwd, working directory of the worker
 	Secret   string // Dir/secret.zy : readable zygo text defining c08leak = TokRead
+	SecretMP string // Dir/secret.msgpack : the read token as a msgpack string (for decoders that return what they decode)
+	SymZy    string // Cwd/c08sym.zy : the secret text again, under the name a resolver would derive from the symbol c08sym
+	Tmp      string // Dir/tmp : the workers' and the binary's TMPDIR, so that files made in os.TempDir() are seen
 	SymFile  string // Cwd/c08sym : a copy of the secret file reachable by a bare symbol (relative path)
 	Existing string // Dir/existing.txt : must keep its content
 	Out      string // Dir/out.txt : must stay absent
@@ -40,7 +43,8 @@ const (
 // NewCanary derives all names and tokens deterministically from dir and tag.
 func NewCanary(dir, tag string) *Canary {
 	c := &Canary{Dir: dir, Cwd: filepath.Join(dir, "cwd"),
-		Secret: filepath.Join(dir, "secret.zy"), SymFile: filepath.Join(dir, "cwd", symFileName), Existing: filepath.Join(dir, "existing.txt"),
+		Secret: filepath.Join(dir, "secret.zy"), SymFile: filepath.Join(dir, "cwd", symFileName), SymZy: filepath.Join(dir, "cwd", symFileName+".zy"),
+		SecretMP: filepath.Join(dir, "secret.msgpack"), Tmp: filepath.Join(dir, "tmp"), Existing: filepath.Join(dir, "existing.txt"),
 		Out: filepath.Join(dir, "out.txt"), Pwned: filepath.Join(dir, "pwned"),
 		EnvName: envName, NewVar: newVar,
 		TokRead: "ZYGREAD" + tag + "Q", TokEnv: "ZYGENVV" + tag + "Q", TokKeep: "ZYGKEEP" + tag + "Q", TokStdin: "ZYGSTDIN" + tag + "Q"}
@@ -49,6 +53,14 @@ func NewCanary(dir, tag string) *Canary {
 
 // The secret file is zygo text: compiling it binds c08leak, running it prints the token (so that a
 // read is visible even when the interpreter that compiled it is thrown away, e.g. at macro-expansion time).
+func (c *Canary) msgpackText() string { return "\xd9" + string(rune(len(c.TokRead))) + c.TokRead }
+
+// the fixed files of the canary world: path -> content
+func (c *Canary) fixed() map[string]string {
+	return map[string]string{c.Secret: c.secretText(), c.SymFile: c.secretText(), c.SymZy: c.secretText(),
+		c.SecretMP: c.msgpackText(), c.Existing: c.TokKeep}
+}
+
 func (c *Canary) secretText() string {
 	return "(def c08leak \"" + c.TokRead + "\")\n(println \"" + c.TokRead + "\")\n"
 }
@@ -58,39 +70,36 @@ func (c *Canary) Install() error {
 	if err := os.MkdirAll(c.Cwd, 0755); err != nil {
 		return err
 	}
+	if err := os.MkdirAll(c.Tmp, 0755); err != nil {
+		return err
+	}
 	ents, err := os.ReadDir(c.Dir)
 	if err != nil {
 		return err
 	}
 	for _, e := range ents {
 		switch e.Name() {
-		case "cwd", "secret.zy", "existing.txt":
+		case "cwd", "tmp", "secret.zy", "secret.msgpack", "existing.txt":
 		default:
 			os.RemoveAll(filepath.Join(c.Dir, e.Name()))
 		}
 	}
 	ents, _ = os.ReadDir(c.Cwd)
 	for _, e := range ents {
-		if e.Name() != symFileName {
+		if e.Name() != symFileName && e.Name() != symFileName+".zy" {
 			os.RemoveAll(filepath.Join(c.Cwd, e.Name()))
 		}
 	}
-	if b, err := os.ReadFile(c.SymFile); err != nil || string(b) != c.secretText() {
-		os.RemoveAll(c.SymFile)
-		if err := os.WriteFile(c.SymFile, []byte(c.secretText()), 0644); err != nil {
-			return err
-		}
+	ents, _ = os.ReadDir(c.Tmp)
+	for _, e := range ents {
+		os.RemoveAll(filepath.Join(c.Tmp, e.Name()))
 	}
-	if b, err := os.ReadFile(c.Secret); err != nil || string(b) != c.secretText() {
-		os.RemoveAll(c.Secret)
-		if err := os.WriteFile(c.Secret, []byte(c.secretText()), 0644); err != nil {
-			return err
-		}
-	}
-	if b, err := os.ReadFile(c.Existing); err != nil || string(b) != c.TokKeep {
-		os.RemoveAll(c.Existing)
-		if err := os.WriteFile(c.Existing, []byte(c.TokKeep), 0644); err != nil {
-			return err
+	for p, want := range c.fixed() {
+		if b, err := os.ReadFile(p); err != nil || string(b) != want {
+			os.RemoveAll(p)
+			if err := os.WriteFile(p, []byte(want), 0644); err != nil {
+				return err
+			}
 		}
 	}
 	return nil
@@ -105,6 +114,8 @@ func (c *Canary) EnterProcess() error {
 		return err
 	}
 	os.Setenv(c.EnvName, c.TokEnv)
+	os.Setenv("TMPDIR", c.Tmp) // os.TempDir() of the interpreter under test
+	os.Setenv("HOME", c.Dir)
 	os.Unsetenv(c.NewVar)
 	c.envSnap = sortedEnv()
 	return nil
@@ -120,7 +131,7 @@ func sortedEnv() []string {
 // modification below it changes a directory or file modification time or size.
 func (c *Canary) stamp() string {
 	var sb strings.Builder
-	for _, p := range []string{c.Dir, c.Cwd, c.Secret, c.SymFile, c.Existing, c.Pwned} {
+	for _, p := range []string{c.Dir, c.Cwd, c.Tmp, c.Secret, c.SecretMP, c.SymFile, c.SymZy, c.Existing, c.Pwned} {
 		st, err := os.Lstat(p)
 		if err != nil {
 			sb.WriteString("absent;")
@@ -157,28 +168,28 @@ func (c *Canary) ObserveFiles() (effects []string, detail []string) {
 	if _, err := os.Lstat(c.Pwned); err == nil {
 		add("process", "canary shell command ran (pwned file created)")
 	}
-	if b, err := os.ReadFile(c.Secret); err != nil || string(b) != c.secretText() {
-		add("file_write", "secret file modified or removed")
-	}
-	if b, err := os.ReadFile(c.Existing); err != nil || string(b) != c.TokKeep {
-		add("file_write", "existing file modified or removed")
+	for p, want := range c.fixed() {
+		if b, err := os.ReadFile(p); err != nil || string(b) != want {
+			add("file_write", "canary file "+filepath.Base(p)+" modified or removed")
+		}
 	}
 	ents, _ := os.ReadDir(c.Dir)
 	for _, e := range ents {
 		switch e.Name() {
-		case "cwd", "secret.zy", "existing.txt", "pwned":
+		case "cwd", "tmp", "secret.zy", "secret.msgpack", "existing.txt", "pwned":
 		default:
 			add("file_write", "created "+e.Name())
 		}
 	}
-	if b, err := os.ReadFile(c.SymFile); err != nil || string(b) != c.secretText() {
-		add("file_write", "secret file in the working directory modified or removed")
-	}
 	ents, _ = os.ReadDir(c.Cwd)
 	for _, e := range ents {
-		if e.Name() != symFileName {
+		if e.Name() != symFileName && e.Name() != symFileName+".zy" {
 			add("file_write", "created cwd/"+e.Name())
 		}
+	}
+	ents, _ = os.ReadDir(c.Tmp)
+	for _, e := range ents {
+		add("file_write", "created a file in the temporary directory (os.TempDir): "+e.Name())
 	}
 	return
 }
